@@ -24,6 +24,23 @@ def lcpB : Bytes → Bytes → Nat
   | a :: as, b :: bs => if a = b then lcpB as bs + 1 else 0
   | _, _ => 0
 
+/-- the inner loop of `copyOnWriteSearch` on the key of the node just entered:
+
+        for i := 0; charsMatched < len(path); i++ {
+            if i >= len(current.key) { break }
+            if current.key[i] != path[charsMatched] { break STOP }
+            charsMatched++ ; charsMatchedInNodeFound++
+        }
+
+    `key` = the key bytes from index i on, `rest` = path[charsMatched:]; result: bytes matched in this node, and whether the
+    search stops here (`break STOP`: a byte differs) -/
+def cowInner : Bytes → Bytes → Nat × Bool
+  | _, [] => (0, false)                      -- the path is used up
+  | [], _ :: _ => (0, false)                 -- the key is used up: the outer loop goes on with getEdge
+  | k :: ks, b :: bs =>
+    if k ≠ b then (0, true)
+    else ((cowInner ks bs).1 + 1, (cowInner ks bs).2)
+
 inductive Class where
   | exactMatch | keyEndMidEdge | toEndOfEdge | toMiddleOfEdge
 deriving DecidableEq, Repr
